@@ -49,6 +49,10 @@ Repeat(s, k) == IF k = 0 THEN <<>> ELSE s \o Repeat(s, k - 1)
 
 ReverseSeq(s) == [i \in 1..Len(s) |-> s[Len(s) - i + 1]]
 
+\* ascending sequence of a finite set of integers
+RECURSIVE SetToSeqAsc(_)
+SetToSeqAsc(S) == IF S = {} THEN <<>> ELSE <<SetMin(S)>> \o SetToSeqAsc(S \ {SetMin(S)})
+
 RECURSIVE SumSeq(_)
 SumSeq(s) == IF s = <<>> THEN 0 ELSE Head(s) + SumSeq(Tail(s))
 
